@@ -404,20 +404,28 @@ def run(ctx):
         param = f.params[1] if len(f.params) > 1 else 'node'
         tuple_typed = set()
         if name == 'postTuple': tuple_typed.add(param)
+        const_tuples = set()          # X such that isinstance(X.value, tuple) is tested: a tuple folded into one constant, d[1,] -> Constant((1,))
         for c in calls_in(f.node):
             if dotted(c.func) == 'isinstance' and len(c.args) == 2 and dotted(c.args[1]) in ('ast.Tuple', 'Tuple'): tuple_typed.add(norm(c.args[0]))
-        if not tuple_typed: continue
+            if dotted(c.func) == 'isinstance' and len(c.args) == 2 and dotted(c.args[1]) == 'tuple' and isinstance(c.args[0], ast.Attribute) and c.args[0].attr == 'value':
+                const_tuples.add(norm(c.args[0].value))
+        if not tuple_typed and not const_tuples: continue
         g = None
         for c in calls_in(f.node):
             if not (isinstance(c.func, ast.Attribute) and c.func.attr == 'join' and isinstance(c.func.value, ast.Constant) and isinstance(c.func.value.value, str)
                     and ',' in c.func.value.value and c.args and isinstance(c.args[0], (ast.ListComp, ast.GeneratorExp))): continue
             it = c.args[0].generators[0].iter
-            if not (isinstance(it, ast.Attribute) and it.attr == 'elts' and norm(it.value) in tuple_typed): continue
+            if isinstance(it, ast.Attribute) and it.attr == 'elts' and norm(it.value) in tuple_typed: fld = 'elts'
+            elif isinstance(it, ast.Attribute) and it.attr == 'value' and norm(it.value) in const_tuples: fld = 'value'
+            else: continue
             X = norm(it.value); sites += 1
             g = g or ctx.cg.cfg(f)
-            def atom(text, node, X=X):
+            def atom(text, node, X=X, fld=fld):
                 t = text.replace(' ', '')
-                L = 'len(%s.elts)' % X
+                L = 'len(%s.%s)' % (X, fld)
+                if fld == 'value':
+                    if t in ('isinstance(%s.value,tuple)' % X, 'isinstance(%s,ast.Constant)' % X, X + '.value'): return True
+                    if t in ('isinstance(%s,ast.Tuple)' % X, 'isinstance(%s,Tuple)' % X): return False           # the key is one folded constant, not a tuple display
                 if t == L + '==1': return True
                 if t in (L + '!=1', L + '>1', L + '>=2', L + '==0', L + '<1'): return False
                 if t == 'isinstance(%s,ast.Tuple)' % X or t == 'isinstance(%s,Tuple)' % X or t == X + '.elts' or t == L: return True
@@ -505,9 +513,97 @@ def run(ctx):
                '' if ok else 'the namespace outer-scope expressions are evaluated in is built as %s (later entries win): a free variable of a lambda created '
                'elsewhere is resolved to a same-named local of the calling frame instead of its closure cell' % ' < '.join(val), node=c,
                expected='locals < cells')
+    # ---------------------------------------------------------------- FIELDS per return path
+    # a handler with several returns: each return either renders every semantic field of the node or is unreachable when the field it leaves out is
+    # non-empty (`if len(node.args) == 1 and not node.keywords and ...: return <func + the generator>` may ignore keywords only because there are none)
+    from ..typestate import scenario_edges
+    from ..q import reaching_defs, value_of_def
+    npaths = 0
+    for kind, (dec, own, f) in sorted(table.items()):
+        cls = getattr(ast, kind, None)
+        if cls is None or not hasattr(cls, '_fields') or issubclass(cls, (ast.boolop, ast.operator, ast.unaryop, ast.cmpop)): continue
+        if kind in ('Index', 'NameConstant', 'Num', 'Str', 'Bytes'): continue
+        param = f.params[1] if len(f.params) > 1 else 'node'
+        g = ctx.cg.cfg(f)
+        rets = [x for x in g.nodes if x.kind == 'stmt' and isinstance(x.ast, ast.Return) and x.ast.value is not None]
+        if len(rets) < 2: continue
+        fields = [x for x in cls._fields if x not in IGNORED_FIELDS and (kind, x) not in FIELD_EXCEPTIONS]
+        for r in rets:
+            seen = set(); work = [(r.ast.value, r, 0)]; used = set()
+            while work:
+                e, at, depth = work.pop()
+                for a in ast.walk(e):
+                    if isinstance(a, ast.Attribute) and dotted(a.value) == param: used.add(a.attr)
+                    if isinstance(a, ast.Call) and dotted(a.func) == 'getattr' and len(a.args) >= 2 and dotted(a.args[0]) == param and isinstance(a.args[1], ast.Constant): used.add(a.args[1].value)
+                    if isinstance(a, ast.Name) and isinstance(a.ctx, ast.Load) and depth < 4:
+                        for d in reaching_defs(g, at, a.id):
+                            if (d.id, a.id) in seen: continue
+                            seen.add((d.id, a.id))
+                            v = value_of_def(d, a.id)
+                            if v is not None: work.append((v, d, depth + 1))
+                            elif d.kind == 'iter': work.append((d.ast.iter, d, depth + 1))
+            # statements that feed a result list through .append / .extend count as well
+            for x in g.nodes:
+                if x.kind == 'stmt' and x.ast is not None and r.id in g.reach([x]) and any(isinstance(c.func, ast.Attribute) and c.func.attr in ('append', 'extend') for c in x.calls()):
+                    for a in ast.walk(x.ast):
+                        if isinstance(a, ast.Attribute) and dotted(a.value) == param: used.add(a.attr)
+            for F in fields:
+                if F in used: continue
+                npaths += 1
+                def nonempty(text, node, F=F):
+                    t = text.replace(' ', '')
+                    if t == '%s.%s' % (param, F): return True
+                    if t == 'len(%s.%s)==0' % (param, F): return False
+                    if t in ('%s.%sisNone' % (param, F),): return False
+                    if t in ('%s.%sisnotNone' % (param, F),): return True
+                    return None
+                live = g.reach([g.entry], edge_ok=scenario_edges(g, f.node, nonempty, resolve=False))
+                ok = r.id not in live
+                ctx.ob('C04-FIELDS.return-path-renders-every-field-or-proves-it-empty', f, r.ast, ok,
+                       '' if ok else 'post%s can take `%s` for a node whose `%s` is not empty: that part of the expression is missing from the regenerated source '
+                       '(e.g. max((x for x in T), default=0) -> max(x for x in T))' % (kind, norm(r.ast)[:70], F), node=r.ast).key += '::' + F
+    ctx.count('C04-FIELDS: (return, omitted field) pairs shown unreachable for a non-empty field', npaths)
+    # the source of a replacement field is code: its own string literals are escaped already.  Whatever escapes text for the new string literal (repr / %r,
+    # unicode_escape, replace of quotes or backslashes) is applied to the literal parts only -- never to something that contains <item>.value.src
+    if js:
+        from ..q import reaching_defs, value_of_def
+        nesc = 0
+        for h in bodies_:
+            gh = ctx.cg.cfg(h)
+            for x in gh.nodes:
+                if x.ast is None or x.kind not in ('stmt', 'test'): continue
+                for e in ast.walk(x.ast):
+                    operand = None
+                    if isinstance(e, ast.BinOp) and isinstance(e.op, ast.Mod) and isinstance(e.left, ast.Constant) and isinstance(e.left.value, str) and '%r' in e.left.value: operand = e.right
+                    elif isinstance(e, ast.Call) and dotted(e.func) in ('repr', 'ascii') and e.args: operand = e.args[0]
+                    elif isinstance(e, ast.Call) and isinstance(e.func, ast.Attribute) and e.func.attr == 'encode' and e.args and isinstance(e.args[0], ast.Constant) and 'escape' in str(e.args[0].value): operand = e.func.value
+                    if operand is None: continue
+                    nesc += 1
+                    # does the operand (through local definitions and through calls to the class's own helpers) contain field source?
+                    seen = set(); work = [(operand, x, 0)]; tainted = False
+                    while work and not tainted:
+                        ex, at, depth = work.pop()
+                        for a in ast.walk(ex):
+                            if isinstance(a, ast.Attribute) and a.attr == 'src': tainted = True
+                            if isinstance(a, ast.Call) and isinstance(a.func, ast.Attribute) and a.func.attr in pt.methods and len(a.args) == 1:
+                                # self.fstring_body(node) without the escaping argument returns text that embeds field source
+                                if any(isinstance(y, ast.Attribute) and y.attr == 'src' for y in ast.walk(pt.methods[a.func.attr].node)): tainted = True
+                            if isinstance(a, ast.Name) and isinstance(a.ctx, ast.Load) and depth < 3:
+                                for d in reaching_defs(gh, at, a.id):
+                                    if (d.id, a.id) in seen: continue
+                                    seen.add((d.id, a.id))
+                                    v = value_of_def(d, a.id)
+                                    if v is not None: work.append((v, d, depth + 1))
+                    ctx.ob('C04-ESCAPE.field-source-is-not-re-escaped', h, e, not tainted,
+                           '' if not tainted else '`%s` escapes text that contains the source of replacement fields: the backslashes and quotes of string literals inside a field are '
+                           'escaped a second time (a newline escape inside a field becomes a backslash followed by n)' % norm(e)[:70], node=x.ast)
+        ctx.floor('C04-ESCAPE', nesc, 1, 'escaping operations in the f-string handlers')
 
 
 MUTANTS = [
+    dict(id='C04-esc2', file='pony/orm/asttranslation.py', fn='PythonTranslator.postJoinedStr', old="                return 'f' + quote + self.fstring_body(node, quote) + quote", new="                return 'f%r' % self.fstring_body(node)", expect='C04-ESCAPE.field-source'),
+    dict(id='C04-kw', file='pony/orm/asttranslation.py', fn='PythonTranslator.postCall', old="        if len(node.args) == 1 and not node.keywords and isinstance(node.args[0], ast.GeneratorExp):", new="        if len(node.args) == 1 and isinstance(node.args[0], ast.GeneratorExp):", expect='C04-FIELDS.return-path'),
+    dict(id='C04-arity-const', file='pony/orm/asttranslation.py', fn='PythonTranslator.postSubscript', old="            key = repr(x.value)[1:-1]", new="            key = ', '.join([repr(item) for item in x.value])", expect='C04-ARITY'),
     dict(id='C04-neg', file='pony/orm/asttranslation.py', fn='PythonTranslator.postConstant', old="        node.priority = 4 if isinstance(value, (int, float, complex)) and repr(value).startswith('-') else 1", new="        node.priority = 1", expect='C04-GROUP'),
     dict(id='C04-neg2', file='pony/orm/asttranslation.py', fn='PythonTranslator.postConstant', old="        node.priority = 4 if isinstance(value, (int, float, complex)) and repr(value).startswith('-') else 1", new="        node.priority = 4 if type(value) in (int, float, complex) and value < 0 else 1", expect='C04-GROUP', benign=True),
     dict(id='C04-m1', file='pony/orm/asttranslation.py', fn='priority',
